@@ -454,6 +454,59 @@ def check_decode_total(chk, m):
     chk.expect("W8", "successful decoder paths", n, 4)
 
 
+def check_size_rejects(chk, m):
+    """W8.size-reject: the decoder may turn a buffer away because of what the header says, never because of how long the buffer is
+    once it is long enough: a refusal decided by the size argument alone (and the pointers being non-NULL) must not apply to any
+    size from the shortest encoding upwards - encode returns that length, and decoding what it wrote from a buffer of that length
+    has to succeed."""
+    fn = m.fn("rf_wavheader_decode")
+    wh = wav.wh_index(fn)
+    fe, ge = grammars(chk, m, "rf_wavheader_encode", "encode")
+    lens = set()
+    for guards, lst in ge.items():
+        for items, p in lst:
+            tot = 0
+            for it in items:
+                if it.kind == "int":
+                    tot += it.width
+                elif isinstance(it.length, int) or (isinstance(it.length, str) and it.length.isdigit()):
+                    tot += int(it.length)
+                else:
+                    tot = None
+                    break
+            if tot:
+                lens.add(tot)
+    if not lens:
+        chk.unknown("W8.size-reject", "rf_wavheader_decode", "no encoder walk of constant length found")
+        return
+    lmin = min(lens)
+    int_args = [k for k, a in enumerate(fn.args) if a.ty in ("i32", "i64")]
+    n = 0
+    for p in paths.enumerate_paths(fn, m, call_effects=wav.EFFECTS):
+        if paths.is_assert_fail_path(p):
+            continue
+        r = p.ret
+        if not (r is not None and r[0] == "c" and r[2] >> (r[1] - 1)):
+            continue
+        n += 1
+        bad = None
+        for nbytes in list(range(lmin, lmin + 70)) + [1 << 12, 1 << 20]:
+            env = {("arg", k): (nbytes if k in int_args else 0x10000 * (k + 1)) for k in range(len(fn.args))}
+            try:
+                if p.conds and all(bool(eval_concrete(c, env)) == bool(t) for c, t, i in p.conds if i is None or i.op != "switch"):
+                    bad = nbytes
+                    break
+            except NoValue:
+                bad = None
+                break
+        chk.ob("W8.size-reject", "rf_wavheader_decode error path " + "->".join(b.lstrip("%") for b in p.blocks)[-80:], bad is None,
+               "this refusal depends on the header's contents (or applies only to buffers shorter than the shortest encoding, %d bytes)" % lmin
+               if bad is None else
+               "a buffer of %d bytes is refused whatever it holds (shortest encoding: %d bytes, which is what rf_wavheader_encode returns for "
+               "a PCM header): encode followed by decode of the bytes written fails" % (bad, lmin), p.ret_inst.loc, fn.name)
+    chk.expect("W8", "error-return paths of the decoder examined for size-only refusals", n, 1)
+
+
 def check_w7(chk, m):
     """W7: the RIFF-size test of rf_wavheader_validate and rf_wavheader_decode accepts exactly the headers with
     chunk_size >= 12 + fmt_chunk_size + fact_chunk_size, decided for all 32-bit chunk sizes (so also for files of 2 to 4 GiB)
@@ -706,6 +759,7 @@ def run(chk):
     check_w7(chk, m)
     chk.rule("W8", "rf_wavheader_decode writes every member of the structure on every successful path")
     check_decode_total(chk, m)
+    check_size_rejects(chk, m)
     # the round trip rests on the cursor functions transferring every item that fits, whole and in the stated byte order,
     # and nothing else (C12's rules on pack.c)
     from . import C12
